@@ -391,3 +391,207 @@ theorem packed_lens_round_trip (lens : List Nat) (h15 : ∀ l ∈ lens, l ≤ 15
   rw [hexp]
 
 end Model.Rle
+
+namespace Model.Rle
+open Model.Core
+
+/-- what the decoder assembles from the 3-bit fields, entry by entry -/
+theorem clensFold_getD (f : Nat → Nat) : ∀ (os : List Nat) (acc : Array Nat) (i : Nat), i < acc.size →
+    (clensFold os (os.map f) acc).getD i 0 = if i ∈ os then f i else acc.getD i 0 := by
+  intro os
+  induction os with
+  | nil => intro acc i _; simp [clensFold]
+  | cons o os ih =>
+    intro acc i hi
+    show (clensFold os (os.map f) (acc.setIfInBounds o (f o))).getD i 0 = _
+    rw [ih _ i (by simpa using hi)]
+    by_cases hio : i ∈ os
+    · simp [hio]
+    · rw [if_neg hio]
+      by_cases he : i = o
+      · subst he
+        simp [Array.getD_eq_getD_getElem?, Array.getElem?_setIfInBounds, hi]
+      · have : i ∉ o :: os := by simp [he, hio]
+        rw [if_neg this]
+        simp [Array.getD_eq_getD_getElem?, Array.getElem?_setIfInBounds, Ne.symm he]
+
+theorem clensFold_size : ∀ (os vs : List Nat) (acc : Array Nat), (clensFold os vs acc).size = acc.size := by
+  intro os
+  induction os with
+  | nil => intro vs acc; cases vs <;> rfl
+  | cons o os ih =>
+    intro vs acc
+    cases vs with
+    | nil => rfl
+    | cons v vs => show (clensFold os vs (acc.setIfInBounds o v)).size = _; rw [ih]; simp
+
+theorem numBitLengths_bounds (clens : Array Nat) : 4 ≤ numBitLengths clens ∧ numBitLengths clens ≤ 19 := by
+  unfold numBitLengths
+  constructor
+  · exact Nat.le_max_left _ _
+  · apply Nat.max_le.mpr
+    constructor
+    · decide
+    · omega
+
+theorem mem_takeWhile_sat (p : Nat → Bool) : ∀ (l : List Nat) (x : Nat), x ∈ l.takeWhile p → p x = true := by
+  intro l
+  induction l with
+  | nil => intro x h; simp at h
+  | cons a l ih =>
+    intro x h
+    rw [List.takeWhile_cons] at h
+    by_cases ha : p a = true
+    · rw [if_pos ha] at h
+      rcases List.mem_cons.mp h with h | h
+      · rw [h]; exact ha
+      · exact ih x h
+    · rw [if_neg ha] at h; simp at h
+
+/-- the entries not sent are zero -/
+theorem dropped_are_zero (clens : Array Nat) : ∀ o ∈ Spec.clenOrder.drop (numBitLengths clens), clens.getD o 0 = 0 := by
+  intro o ho
+  -- the trailing zeros, as a suffix of the order
+  have hpre := List.takeWhile_prefix (fun o => clens.getD o 0 == 0) (l := Spec.clenOrder.reverse)
+  obtain ⟨t, ht⟩ := hpre
+  generalize htw : (Spec.clenOrder.reverse).takeWhile (fun o => clens.getD o 0 == 0) = tw at ht
+  have hall : ∀ x ∈ tw, clens.getD x 0 = 0 := by
+    intro x hx
+    rw [← htw] at hx
+    have := mem_takeWhile_sat _ _ _ hx
+    simpa using this
+  have hord : Spec.clenOrder = t.reverse ++ tw.reverse := by
+    have := congrArg List.reverse ht
+    rw [List.reverse_reverse, List.reverse_append] at this
+    exact this.symm
+  have hlen : t.length + tw.length = 19 := by
+    have := congrArg List.length hord
+    simp only [List.length_append, List.length_reverse] at this
+    have h19 : Spec.clenOrder.length = 19 := by decide
+    omega
+  have hn : t.length ≤ numBitLengths clens := by
+    unfold numBitLengths
+    rw [htw]
+    have : 18 - tw.length + 1 ≥ t.length ∨ tw.length = 19 := by omega
+    rcases this with h | h
+    · exact Nat.le_trans h (Nat.le_max_right _ _)
+    · have : t.length = 0 := by omega
+      omega
+  -- o lies in the zero suffix
+  rw [hord] at ho
+  have : o ∈ tw.reverse := by
+    have hsub : (t.reverse ++ tw.reverse).drop (numBitLengths clens) = tw.reverse.drop (numBitLengths clens - t.length) := by
+      rw [List.drop_append, List.drop_eq_nil_of_le (by simp; exact hn)]
+      simp
+    rw [hsub] at ho
+    exact List.mem_of_mem_drop ho
+  exact hall o (by simpa using this)
+
+/-- THE CODE-LENGTH CODE IS SENT COMPLETELY: the decoder reassembles exactly `clens` from the fields the
+    model sends (trailing zero entries in the RFC's order are implied). -/
+theorem header_clens (litLens distLens clens : Array Nat) (hcs : clens.size = 19) :
+    (header litLens distLens clens).clens = clens := by
+  apply Array.ext
+  · show (clensFold Spec.clenOrder ((Spec.clenOrder.take (numBitLengths clens)).map (fun o => clens.getD o 0)) (Array.replicate 19 0)).size = _
+    rw [clensFold_size]; simp [hcs]
+  · intro i h1 h2
+    have hi : i < 19 := by rw [hcs] at h2; exact h2
+    have hfold : (header litLens distLens clens).clens =
+        clensFold (Spec.clenOrder.take (numBitLengths clens) ++ Spec.clenOrder.drop (numBitLengths clens))
+          ((Spec.clenOrder.take (numBitLengths clens)).map (fun o => clens.getD o 0)) (Array.replicate 19 0) := by
+      rw [List.take_append_drop]; rfl
+    -- folding over the longer order list with the shorter value list stops with the values
+    have hstop : ∀ (os1 os2 : List Nat) (acc : Array Nat), clensFold (os1 ++ os2) (os1.map (fun o => clens.getD o 0)) acc =
+        clensFold os1 (os1.map (fun o => clens.getD o 0)) acc := by
+      intro os1
+      induction os1 with
+      | nil => intro os2 acc; cases os2 <;> rfl
+      | cons o os ih => intro os2 acc; exact ih os2 _
+    have hg := clensFold_getD (fun o => clens.getD o 0) (Spec.clenOrder.take (numBitLengths clens)) (Array.replicate 19 0) i (by simpa using hi)
+    have hval : (header litLens distLens clens).clens.getD i 0 = clens.getD i 0 := by
+      rw [hfold, hstop, hg]
+      by_cases hm : i ∈ Spec.clenOrder.take (numBitLengths clens)
+      · rw [if_pos hm]
+      · rw [if_neg hm]
+        have hin : i ∈ Spec.clenOrder := by
+          have : ∀ j, j < 19 → j ∈ Spec.clenOrder := by decide
+          exact this i hi
+        rw [← List.take_append_drop (numBitLengths clens) Spec.clenOrder] at hin
+        rcases List.mem_append.mp hin with h | h
+        · exact absurd h hm
+        · rw [dropped_are_zero clens i h]; simp [Array.getD_eq_getD_getElem?, hi]
+    simp only [Array.getD_eq_getD_getElem?, Array.getElem?_eq_getElem h1, Array.getElem?_eq_getElem h2, Option.getD_some] at hval
+    exact hval
+
+end Model.Rle
+
+namespace Model.Rle
+open Model.Core
+
+theorem SOk_sym_lt : ∀ (cs : List CSym) (acc : Array Nat), SOk acc cs → ∀ c ∈ cs, c.sym < 19 := by
+  intro cs
+  induction cs with
+  | nil => intro acc _ c hc; simp at hc
+  | cons x xs ih =>
+    intro acc h c hc
+    rcases List.mem_cons.mp hc with he | he
+    · subst he
+      cases c with
+      | len l => have : l < 16 := h.1; show l < 19; omega
+      | rep r => show 16 < 19; decide
+      | z3 r => show 17 < 19; decide
+      | z7 r => show 18 < 19; decide
+    · exact ih _ h.2 c he
+
+theorem header_lens (litLens distLens clens : Array Nat) (h15 : ∀ l ∈ litLens.toList ++ distLens.toList, l ≤ 15) :
+    (header litLens distLens clens).lens = litLens ++ distLens := by
+  apply Array.ext'
+  show (applyAll #[] (rlePack (litLens.toList ++ distLens.toList))).toList = _
+  rw [rlePack_expands _ h15]
+  simp
+
+/-- THE HEADER THE MODEL OF `start_dynamic_block` WRITES IS A WELL-FORMED HEADER OF THE ENCODER
+    SPECIFICATION, whenever the Huffman builder delivered usable codes: 257..286 literal/length and
+    1..30 distance code sizes, each at most 15 and valid as a code, with a code for end-of-block; a
+    code-length code of 19 sizes below 8, valid, with a code for every symbol the packer used. So the
+    block `encDynamic final (header …) toks` is decoded back by the reference decoder
+    (`encDynamic_decodes`) — for every such input of the packer. -/
+theorem model_header_ok (litLens distLens clens : Array Nat)
+    (hl : 257 ≤ litLens.size ∧ litLens.size ≤ 286) (hd : 1 ≤ distLens.size ∧ distLens.size ≤ 30)
+    (h15 : ∀ l ∈ litLens.toList ++ distLens.toList, l ≤ 15)
+    (hcs : clens.size = 19) (hc8 : ∀ i, clens.getD i 0 < 8)
+    (hcv : Spec.codeValid .clen clens = true)
+    (hcodes : ∀ c ∈ rlePack (litLens.toList ++ distLens.toList), 1 ≤ clens.getD c.sym 0)
+    (hlv : Spec.codeValid .litlen litLens = true) (hdv : Spec.codeValid .dist distLens = true)
+    (heob : 1 ≤ litLens.getD 256 0) :
+    (header litLens distLens clens).Ok := by
+  have hcl := header_clens litLens distLens clens hcs
+  have hle := header_lens litLens distLens clens h15
+  obtain ⟨hexp, hsok⟩ := rlePack_spec (litLens.toList ++ distLens.toList) h15
+  have hnb := numBitLengths_bounds clens
+  have hlitL : (header litLens distLens clens).litLens = litLens := by
+    show (header litLens distLens clens).lens.extract 0 (litLens.size - 257 + 257) = _
+    rw [hle, show litLens.size - 257 + 257 = litLens.size by omega]
+    simp
+  have hdistL : (header litLens distLens clens).distLens = distLens := by
+    show (header litLens distLens clens).lens.extract (litLens.size - 257 + 257) (litLens.size - 257 + 257 + (distLens.size - 1 + 1)) = _
+    rw [hle, show litLens.size - 257 + 257 = litLens.size by omega, show distLens.size - 1 + 1 = distLens.size by omega]
+    simp
+  refine ⟨by show litLens.size - 257 ≤ 29; omega, by show distLens.size - 1 ≤ 29; omega, ?_, ?_, by rw [hcl]; exact hcv, ?_,
+    by rw [hlitL]; exact hlv, by rw [hdistL]; exact hdv, by rw [hlitL]; exact ⟨by omega, heob⟩⟩
+  · show 4 ≤ ((Spec.clenOrder.take (numBitLengths clens)).map _).length ∧ ((Spec.clenOrder.take (numBitLengths clens)).map _).length ≤ 19
+    rw [List.length_map, List.length_take]
+    have h19 : Spec.clenOrder.length = 19 := by decide
+    rw [h19]; omega
+  · intro v hv
+    have : v ∈ (Spec.clenOrder.take (numBitLengths clens)).map (fun o => clens.getD o 0) := hv
+    obtain ⟨o, _, rfl⟩ := List.mem_map.mp this
+    exact hc8 o
+  · rw [hcl]
+    show CSymsOk clens (litLens.size - 257 + 257 + (distLens.size - 1 + 1)) #[] (rlePack (litLens.toList ++ distLens.toList))
+    refine csymsOk_of clens _ _ #[] hsok (fun c hc => ⟨by rw [hcs]; exact SOk_sym_lt _ _ hsok c hc, hcodes c hc⟩) ?_
+    have := congrArg List.length hexp
+    simp only [Array.length_toList, List.length_append] at this
+    omega
+
+end Model.Rle
